@@ -63,6 +63,8 @@ def main():
             return ("C12", "C13")
         if name == "ContBelt_is_stalled":
             return ("C13",)
+        if name == "Machine_slot_before_index_draw":
+            return ("C08", "C10", "C15")        # the in-edge policy is consulted when it is acted upon, not before the wait for the slot
         if "_slot_before_" in name:
             return ("C08",)
         if name in ("Combiner_first_ingredient_edge", "Combiner_recipe_index"):
@@ -84,7 +86,7 @@ def main():
     for target, props in (("theories/Edges/TieB.vo", ("C01", "C02", "C04", "C09", "C11", "C15")),
                           ("theories/Nodes/TieAcc.vo", ("C15", "C17")),
                           ("theories/Edges/TieBelt.vo", ("C12", "C13")),
-                          ("theories/Nodes/TieNodes.vo", ("C08", "C16")),
+                          ("theories/Nodes/TieNodes.vo", ("C08", "C10", "C15", "C16")),
                           ("theories/Factory/TieStats.vo", ("C14", "C17", "C18")),
                           ("theories/Factory/TieCommit.vo", ("C10", "C15"))):
         if pid in props:
